@@ -207,8 +207,14 @@ def w3(run):
     prep = None
     if entry_item:
         try:
-            StrEval(sink_names, mod_fns).run_fn(entry_item[0], "x")
-            prep = lambda doc: StrEval(sink_names, mod_fns).run_fn(entry_item[0], doc)[1]
+            mod_consts = {it["name"]: it["e"] for it in mod["items"] if it.get("k") == "const" and not it.get("test") and it.get("e")}
+
+            def mk_eval():
+                ev_ = StrEval(sink_names, mod_fns)
+                ev_.consts = mod_consts
+                return ev_
+            mk_eval().run_fn(entry_item[0], "x")
+            prep = lambda doc: mk_eval().run_fn(entry_item[0], doc)[1]
         except Unknown as ex:
             run.bad("C17.W3", "legend-preparation-uninterpretable", gfile,
                     "the text preparation in %s uses a construct outside the modelled subset (%s); its effect on line ends cannot be decided" % (entry, ex))
